@@ -9,8 +9,25 @@ TRUSTED = ["model: Model/Scripts (enabled set, definition order, parse_env_file,
 ASSUMPTIONS = ["a failing script cancelling the run with exit status 105 is proved in C10.script_failure_always_cancels + C01.exit_codes and observed here end-to-end"]
 
 
+def run_p(seed, tier, replay=None):
+    """in-process: which scripts a profile enables and which tests each applies to (real SetupScripts / is_enabled through a guarded
+    hook) over rules with host/target platform specifications and host- and target-platform binaries, against Model/Scripts"""
+    n = 300 if tier == "quick" else 12000
+    r = common.run_streams([("p_scripts", [seed, n, vlib.BUILD + "/scripts-tmp"])])
+    items = [([b, args, idx], req, impl) for (b, args, idx, req, impl) in r.cases]
+    mism, _ = common.compare(items, None)
+    violations = []
+    for m in mism:
+        f = m["req"].split(" ")
+        violations.append({"what": f"setup-script enablement differs from the documented rule: scripts (definition order) {f[1]}, rules (setup:truth per test) {f[2]}: nextest says {m['impl']}, the rules say {m['model']}",
+                           "payload": {"stream": m["origin"][:2], "line_index": m["origin"][2], "request": m["req"], "impl": m["impl"], "spec": m["model"]}, "kind": "enablement"})
+    return {"evaluations": len(items), "distinct_nontrivial": len({q for _, q, _ in items if "1" in q.split(" ")[2]}),
+            "rule": "p_scripts: 1-3 scripts in random definition order, 1-3 rules with filters from a pool of 9 and platform specifications from a pool of 8 (string and host/target table forms), tests of a host-platform and a target-platform binary; enabled list (order) and per-test applicability compared with the model; non-trivial = some rule applies to some test",
+            "samples": [f"{q[:200]}  =>  {i[:120]}" for (_, q, i) in items[:3]], "traces": len(items), "dist": {"scripts:" + k: v for k, v in r.dist.items()},
+            "violations": violations, "broken": r.broken, "impl_failures": r.impl_failures}
+
+
 def run(seed, tier, replay=None):
-    result = {"evaluations": 0, "distinct_nontrivial": 0, "rule": "", "samples": [], "traces": 0, "dist": {}, "violations": [], "broken": []}
-    return mix.merge(result, scr.check(seed, tier, 12, 120))
+    return mix.merge(run_p(seed, tier, replay), scr.check(seed, tier, 12, 120))
 
 KNOWN_MATCHERS = {}
